@@ -64,7 +64,15 @@ type vRec struct {
 	t, i   int
 	events int
 	closed bool
+	// scoped view (Sub): events are written through parent and only while the parent is still
+	// in the trace this view was opened for - stragglers of an abandoned (hung) scenario can
+	// therefore never leak events into the traces of later scenarios
+	parent *vRec
+	scope  int
 }
+
+// Sub returns a view of r for ONE scenario: call Reset on it first.
+func (r *vRec) Sub() *vRec { return &vRec{parent: r, scope: -1} }
 
 func vOpenRec(t testing.TB, name string) *vRec {
 	f, err := os.Create(filepath.Join(vOutDir(t), name))
@@ -103,6 +111,10 @@ func (r *vRec) emitLocked(ev string, fields kv) {
 
 // Reset starts a new trace.
 func (r *vRec) Reset(fields kv) int {
+	if r.parent != nil {
+		r.scope = r.parent.Reset(fields)
+		return r.scope
+	}
 	r.mu.Lock()
 	defer r.mu.Unlock()
 	r.t++
@@ -113,6 +125,14 @@ func (r *vRec) Reset(fields kv) int {
 
 // Ev records one event of the current trace.
 func (r *vRec) Ev(ev string, fields kv) {
+	if p := r.parent; p != nil {
+		p.mu.Lock()
+		if p.t == r.scope {
+			p.emitLocked(ev, fields)
+		}
+		p.mu.Unlock()
+		return
+	}
 	r.mu.Lock()
 	r.emitLocked(ev, fields)
 	r.mu.Unlock()
@@ -121,6 +141,17 @@ func (r *vRec) Ev(ev string, fields kv) {
 // EvDo records an event and runs fn while the recorder mutex is held, so that the
 // event and the action it describes are atomic with respect to other recorded events.
 func (r *vRec) EvDo(ev string, fields kv, fn func()) {
+	if p := r.parent; p != nil {
+		p.mu.Lock()
+		if p.t == r.scope {
+			p.emitLocked(ev, fields)
+		}
+		if fn != nil {
+			fn()
+		}
+		p.mu.Unlock()
+		return
+	}
 	r.mu.Lock()
 	r.emitLocked(ev, fields)
 	if fn != nil {
